@@ -898,6 +898,12 @@ func (p *pendingReadIndex) add(sys pb.SystemCtx, reqs []*RequestState) {
 	p.mu.Lock()
 	defer p.mu.Unlock()
 	if p.stopped {
+		// requests taken from the incoming queue before close() was called, they
+		// are not in the queue or in any batch so they were not terminated by
+		// close()
+		for _, req := range reqs {
+			req.terminated()
+		}
 		return
 	}
 	if _, ok := p.batches[sys]; ok {
@@ -1227,6 +1233,7 @@ type pendingRaftLogQuery struct {
 	mu struct {
 		sync.Mutex
 		pending *RequestState
+		stopped bool
 	}
 }
 
@@ -1237,6 +1244,7 @@ func newPendingRaftLogQuery() pendingRaftLogQuery {
 func (p *pendingRaftLogQuery) close() {
 	p.mu.Lock()
 	defer p.mu.Unlock()
+	p.mu.stopped = true
 	if p.mu.pending != nil {
 		p.mu.pending.terminated()
 		p.mu.pending = nil
@@ -1271,6 +1279,10 @@ func (p *pendingRaftLogQuery) returned(outOfRange bool,
 	p.mu.Lock()
 	defer p.mu.Unlock()
 	if p.mu.pending == nil {
+		if p.mu.stopped {
+			// the pending query has already been terminated by close()
+			return
+		}
 		panic("no pending raft log query")
 	}
 
